@@ -51,6 +51,12 @@ class DensityEstimator(ABC):
         # switch variables to the centre and width of the interval
         c = 0.5 * (lwr + upr)
         w = upr - lwr
+        # no interval narrower than fraction / (peak density) can hold the requested
+        # fraction: for fractions of the order of 1 / (sample size) the sample-based
+        # estimate degenerates (down to zero width), so start from the mode instead
+        min_width = fraction / self(self.mode)
+        if w < min_width:
+            c, w = self.mode, min_width
 
         simplex = array([[c, w], [c, 0.95 * w], [c - 0.05 * w, w]])
         weight = 0.2 / self(self.mode)
